@@ -56,10 +56,14 @@ def seq_programs(tier, seed):
     rng = random.Random("seq/%d" % seed)
     if tier == "quick":
         ps = list(gen.gen_seq_exhaustive(2, [0, 1, 2, None]))
+        ps += list(gen.gen_seq_core(3, [1]))
+        ps += list(gen.gen_seq_core(2, [0, 2, None], flav="aa"))
         ps += list(gen.gen_seq_random(rng, 600))
     else:
         ps = list(gen.gen_seq_exhaustive(2, [0, 1, 2, None], flavs=("ss", "aa", "sa", "as")))
         ps += list(gen.gen_seq_exhaustive(3, [0, 1]))
+        ps += list(gen.gen_seq_core(3, [0, 2, None]))
+        ps += list(gen.gen_seq_core(4, [1], flav="aa"))
         ps += list(gen.gen_seq_random(rng, 20000, lengths=(4, 5, 6, 8, 10, 12)))
     return ps
 
@@ -120,7 +124,7 @@ PLANS = {
     "C02": dict(mc=MC("sync", "mixed"), runs=[R("chain_s", (250, 4000), (3, 6), "C02", True), R("fifo", (250, 5000), (4, 8), "C02"), R("general", (150, 2000), (3, 5), "C02")]),
     "C03": dict(mc=MC("mixed", "async"), spec_replay=True, runs=[R("general", (400, 8000), (3, 6), None, True), R("sync", (150, 2000), (3, 6), None, True),
                       R("async", (150, 3000), (3, 6), None, True), R("timed", (150, 3000), (3, 6), None, True),
-                      R("chain", (150, 3000), (2, 6), None, True)]),
+                      R("chain", (150, 3000), (2, 6), None, True), R("close", (200, 3000), (3, 6), None, True)]),
     "C05": dict(mc=MC("timed", "async"), runs=[R("general", (250, 4000), (3, 6), "C05", True), R("timed", (200, 3000), (3, 6), "C05", True),
                       R("async", (200, 3000), (3, 6), "C05", True), R("chain", (100, 2000), (2, 6), "C05", True)]),
     "C07": dict(mc=MC("sync", "async"),
@@ -144,7 +148,8 @@ PLANS = {
                                       for pl, n in (("u8", 260), ("u16", 120), ("w1", 60), ("h4", 60), ("b3", 60), ("p5", 60), ("z0", 40), ("z64", 40))],
                 assume=["bit patterns: u8 exhaustive (every value on rotating paths), u16 boundary + random, larger classes checksum-tagged ids; the TLA+ side carries identities, bytes are compared by the harness projection id <-> bytes"]),
     "C06": dict(mc=MC("sync", "async"), spec_replay=True, runs=[R("progress", (500, 8000), (3, 6), "ALL", True, own_all=True), R("chain", (100, 2000), (2, 4), None, True, own_all=True)]),
-    "C09": dict(mc=MC("mixed"), runs=[R("mixed", (400, 8000), (3, 6), "C09", True, own_all=True)]),
+    "C09": dict(mc=MC("mixed"), runs=[R("mixed", (400, 8000), (3, 6), "C09", True, own_all=True),
+                                      R("hseq", (0, 0), (1, 1), "C09", True, programs_fn=handle_programs, own_all=True)]),
     "C14": dict(mc=MC("try"), runs=[R("try", (300, 6000), (3, 6), None, True, rawmon=[("NonBlocking", "NonBlocking.cfg")]),
                                     R("tryfreeze", (300, 6000), (2, 4), None, True, rawmon=[("NonBlocking", "NonBlocking.cfg")])]),
     "C15": dict(mc=MC("async"), runs=[R("fdrop", (400, 8000), (4, 8), "C15", True), R("chain", (200, 3000), (2, 6), "C15", True, own_all=True),
